@@ -290,13 +290,36 @@ func (r *rec) see(corpus []string) {
 	th := thresholds()
 	for !r.full() {
 		fen, b := r.position(corpus)
-		if r.rng.Intn(3) == 0 {
+		switch r.rng.Intn(6) {
+		case 0, 1:
 			fen = batteryPosition(r.rng)
 			var err error
 			b, err = board.FromFEN(fen)
 			if err != nil {
 				continue
 			}
+		case 2:
+			// en-passant captures with batteries behind and beside the pushed pawn
+			pre, from, to := gen.EpBattery(r.rng)
+			pb, err := board.FromFEN(pre)
+			if err != nil {
+				continue
+			}
+			push := move.From(Square(from)) | move.To(Square(to))
+			ok := false
+			for _, m := range proj.Playable(pb, r.ms) {
+				if m == push {
+					ok = true
+				}
+			}
+			if !ok {
+				continue
+			}
+			pb.MakeMove(push)
+			if pb.EnPassant == 0 {
+				continue
+			}
+			fen, b = pb.FEN(), pb
 		}
 		lm := proj.Playable(b, r.ms)
 		if len(lm) == 0 {
